@@ -34,7 +34,21 @@ func (g *c02gen) step(k int) types.MalType {
 	K := Kw
 	lit := []types.MalType{1, 2, "s", K("k"), nil}[g.r.Intn(5)]
 	key := g.r.Pick([]string{K("a"), K("b"), K("c")})
-	switch g.r.Intn(37) {
+	switch g.r.Intn(40) {
+	case 37: // code is data: a quoted program (its last forms are macro calls) held in a register
+		g.hist["quoted-code-literal"]++
+		return []types.MalType{
+			Q(Call("do", 1, Call("cond", false, K("no"), true, K("yes")))),
+			Q(Call("let", V(S("q"), 1), Call("or", nil, S("q")))),
+			Q(L(Call("fn", V(S("a")), Call("and", S("a"), 2)), 1)),
+			Q(Call("try", Call("throw", 1), Call("catch", S("e"), Call("->", S("e"), Call("list"))))),
+		}[g.r.Intn(4)]
+	case 38, 39: // evaluating a quoted program (or a part of one) leaves the program as it was written
+		g.hist["eval-register"]++
+		if g.r.Bool() {
+			return Call("eval", pick())
+		}
+		return Call("list", Call("eval", pick()), Call("eval", pick()))
 	case 30:
 		g.hist["literal-nested-vector"]++
 		return V(V(1, 2), V(3, 4), types.HashMap{Val: map[string]types.MalType{K("a"): V(5, 6)}})
